@@ -18,7 +18,22 @@ def instrument(impl, limit_factor=50):
     linear bound; exceeding limit_factor * bound aborts the run (no need to wait for 2^60 steps)."""
     BF = impl.TF.BackwardFunction
     T = impl.synapgrad.Tensor
-    st = {"calls": {}, "ncalls": 0, "created": 0, "zero": 0, "bound": None}
+    st = {"calls": {}, "ncalls": 0, "created": 0, "zero": 0, "bound": None, "eq": 0, "hash": 0, "count_cmp": False}
+
+    def t_eq(self, other):
+        if st["count_cmp"]:
+            st["eq"] += 1
+            if st["bound"] is not None and st["eq"] > limit_factor * st["bound"]:
+                raise WorkBound("more than %d x the linear bound %d tensor comparisons (==)" % (limit_factor, st["bound"]))
+        return self is other
+
+    def t_hash(self):
+        if st["count_cmp"]:
+            st["hash"] += 1
+            if st["bound"] is not None and st["hash"] > limit_factor * st["bound"]:
+                raise WorkBound("more than %d x the linear bound %d tensor hash calls" % (limit_factor, st["bound"]))
+        return id(self) >> 4
+    T.__eq__, T.__hash__ = t_eq, t_hash
     orig_call, orig_init, orig_zero = BF.__call__, BF.__init__, T.zero_
 
     def call(self):
@@ -55,7 +70,7 @@ def linear_bound(root):
     return total, fns
 
 
-def finish(res, st, root, x, expected, seed=None):
+def finish(res, st, root, x, expected, seed=None, fail_first=False, extra_leaves=None):
     from lib import impl
     sg, np = impl.synapgrad, impl.np
     bound, fns = linear_bound(root)
@@ -63,17 +78,37 @@ def finish(res, st, root, x, expected, seed=None):
     res.update(bound=bound, closures=fns)
     t1 = time.time()
     try:
+        if fail_first:
+            # a call that fails (gradient of the wrong shape) and is caught; the next, correct, call must behave as if it never happened
+            for _ in range(2):
+                try:
+                    root.backward(sg.Tensor(np.ones(tuple(root.data.shape) + (2,))))
+                except RuntimeError as ex:
+                    if isinstance(ex, WorkBound):
+                        raise
+                else:
+                    raise AssertionError("backward accepted a gradient of the wrong shape")
+            st["calls"].clear(); st["ncalls"] = 0; st["zero"] = 0
+            res["failed_calls_first"] = 2
+        st["count_cmp"] = True
         if seed is None:
             root.backward()
         else:
             root.backward(sg.Tensor(seed))
         g = np.asarray(x._grad, dtype=np.float64).reshape(-1)
         e = np.asarray(expected, dtype=np.float64).reshape(-1)
-        res.update(ok=True, grad=[float(v) for v in g[:4]], expected=[float(v) for v in e[:4]], grad_exact=bool((g == e).all()),
+        st["count_cmp"] = False
+        exact = bool((g == e).all())
+        if extra_leaves:
+            exact = exact and all(p._grad is not None and bool((np.asarray(p._grad) == val).all()) for p, val in extra_leaves)
+        res.update(tensor_eq_calls=st["eq"], tensor_hash_calls=st["hash"])
+        res.update(ok=True, grad=[float(v) for v in g[:4]], expected=[float(v) for v in e[:4]], grad_exact=exact,
                    calls=len(st["calls"]), max_calls=max(st["calls"].values()) if st["calls"] else 0, zero_calls=st["zero"],
                    backward_s=round(time.time() - t1, 2))
     except BaseException as ex:
-        res.update(ok=False, error="%s: %s" % (type(ex).__name__, str(ex)[:200]), zero_calls=st["zero"], calls=len(st["calls"]))
+        st["count_cmp"] = False
+        res.update(ok=False, error="%s: %s" % (type(ex).__name__, str(ex)[:200]), zero_calls=st["zero"], calls=len(st["calls"]),
+                   tensor_eq_calls=st["eq"], tensor_hash_calls=st["hash"])
     return res
 
 
@@ -81,7 +116,7 @@ CHAIN_VARIANTS = ["first_mul", "second_mul", "second_add", "alternating", "unary
                   "addmm_first", "addmm_second", "addmm_third", "concat_second", "concat_first", "stack_second", "tensor_scalar_mix"]
 
 
-def chain(n, variant):
+def chain(n, variant, fail_first=False):
     from lib import impl
     sg, np, TF = impl.synapgrad, impl.np, impl.TF
     st = instrument(impl)
@@ -113,7 +148,7 @@ def chain(n, variant):
         seed = np.array([[1.0], [3.0]]) if h.data.shape == (2, 1) else np.array([[1.0, 3.0]])
         expected = (J.T @ seed.reshape(2, 1)).reshape(x.data.shape)
         res["build_s"] = round(time.time() - t0, 2)
-        return finish(res, st, h, x, expected, seed)
+        return finish(res, st, h, x, expected, seed, fail_first=fail_first)
     x = sg.Tensor(np.array([1.0]), requires_grad=True)
     y, d = x, 1.0
     for i in range(n):
@@ -145,7 +180,7 @@ def chain(n, variant):
         else:
             raise ValueError(variant)
     res["build_s"] = round(time.time() - t0, 2)
-    res = finish(res, st, y, x, [d])
+    res = finish(res, st, y, x, [d], fail_first=fail_first)
     if res.get("ok"):
         try:
             y.backward()          # a second call accumulates; every closure has now run exactly twice
@@ -159,7 +194,7 @@ def chain(n, variant):
 DIAMOND_VARIANTS = ["const_w", "param_w", "triple", "matmul"]
 
 
-def diamond(depth, variant):
+def diamond(depth, variant, fail_first=False):
     """depth stacked blocks, every block uses the previous state twice (2^depth paths, 2*depth ops)."""
     from lib import impl
     sg, np, TF = impl.synapgrad, impl.np, impl.TF
@@ -170,7 +205,7 @@ def diamond(depth, variant):
         h = x
         for i in range(depth):
             h = TF.matmul(h, h)              # x^(2^depth) at x = I: d sum(h)/dx = 2^depth * ones
-        return finish(res, st, h, x, (2.0 ** depth) * np.ones((2, 2)), np.ones((2, 2)))
+        return finish(res, st, h, x, (2.0 ** depth) * np.ones((2, 2)), np.ones((2, 2)), fail_first=fail_first)
     x = sg.Tensor(np.array([1.0]), requires_grad=True)
     w = sg.Tensor(np.array([1.0]), requires_grad=(variant == "param_w"))
     h = x
@@ -179,7 +214,43 @@ def diamond(depth, variant):
             h = h + h * w + h * 0.0          # the state is used three times; 3^depth paths, factor 2 per block
         else:
             h = h + h * w                    # the state is used twice
-    return finish(res, st, h, x, [2.0 ** depth])
+    return finish(res, st, h, x, [2.0 ** depth], fail_first=fail_first)
+
+
+WIDE_VARIANTS = ["chain_params", "sum_leaves", "concat_leaves", "shared_params"]
+
+
+def wide(n, variant):
+    """graphs WIDE in distinct requires-grad leaves: the work of backward must stay linear in nodes + edges, in particular the
+    number of tensor comparisons / hash calls (counted from outside through Tensor.__eq__ / __hash__)."""
+    from lib import impl
+    sg, np, TF = impl.synapgrad, impl.np, impl.TF
+    st = instrument(impl)
+    res = {"kind": "wide", "n": n, "variant": variant}
+    x = sg.Tensor(np.array([1.0]), requires_grad=True)
+    ps = [sg.Tensor(np.array([float(i % 3)]), requires_grad=True) for i in range(n)]
+    a = sg.Tensor(np.array([1.0]))
+    if variant == "chain_params":          # h = h*a + p_i
+        h = x
+        for p in ps:
+            h = h * a + p
+        extra = [(p, 1.0) for p in ps]
+    elif variant == "sum_leaves":          # x + p_0 + p_1 + ...
+        h = x
+        for p in ps:
+            h = h + p
+        extra = [(p, 1.0) for p in ps]
+    elif variant == "concat_leaves":       # one op with n+1 operands
+        h = TF.concat([x] + ps, 0).sum()
+        extra = [(p, 1.0) for p in ps]
+    else:                                  # every parameter used twice, far apart
+        h = x
+        for p in ps:
+            h = h + p
+        for p in ps:
+            h = h + p * a
+        extra = [(p, 2.0) for p in ps]
+    return finish(res, st, h, x, [1.0], extra_leaves=extra)
 
 
 def untracked(iters, mode):
@@ -346,10 +417,13 @@ def catalog():
 
 if __name__ == "__main__":
     kind = sys.argv[1]
+    ff = len(sys.argv) > 4 and sys.argv[4] == "fail_first"
     if kind == "chain":
-        out = chain(int(sys.argv[2]), sys.argv[3] if len(sys.argv) > 3 else "tensor_scalar_mix")
+        out = chain(int(sys.argv[2]), sys.argv[3] if len(sys.argv) > 3 else "tensor_scalar_mix", ff)
     elif kind == "diamond":
-        out = diamond(int(sys.argv[2]), sys.argv[3] if len(sys.argv) > 3 else "const_w")
+        out = diamond(int(sys.argv[2]), sys.argv[3] if len(sys.argv) > 3 else "const_w", ff)
+    elif kind == "wide":
+        out = wide(int(sys.argv[2]), sys.argv[3])
     elif kind == "catalog":
         out = catalog()
     else:
